@@ -11,11 +11,14 @@ func init() {
 				Reach: []string{"invalid next to valid", "invalid alone"}, Functions: fns},
 			{Name: "service-errors", Pkg: ".", Files: files, Entry: "VerifServiceErrors", Mode: "seq", Native: true,
 				Reach: []string{"child step failed", "root step failed", "chunked downstream calls", "same message twice"}, Functions: fns},
+			{Name: "two-services-fail", Pkg: ".", Files: files, Entry: "VerifTwoServicesFail", Mode: "seq", Native: true,
+				Reach: []string{"two services failed", "same message from two services"}, Functions: fns},
 		},
 		Assume: []string{
 			"gqlparser's validator decides validity natively; the 14 invalid operations are mutations of valid ones (unknown field/type/argument, wrong variable type, fragment cycle, ambiguous / unknown operation, syntax error, missing selection / argument, unused fragment / variable, subscription without root)",
 			"the gateway reaches the fake services through the real MultiOpQueryer; net/http is the harness transport, encoding/json the abstract codec",
 			"error messages are string atoms, extension members symbolic integers",
+			"two-services-fail: two services fail in the same plan level (two root steps, or two child steps of one root step) with messages that may coincide",
 		},
 		Outside: []string{"invalid operations beyond the list", "more than two errors per answer", "error payloads with members other than message/extensions/path/locations"},
 	})
